@@ -24,6 +24,15 @@ def run(tier, wd):
         for c, r in rows2:
             c["ti"] += off
         rows = rows + rows2
+    # a six-level tree with siblings at every level, explored with listed vectors (paths through aliases, help tokens at every
+    # position, behind --, after invalid arguments)
+    dt = T.deep_tree()
+    trs3, rows3 = tc.run_tree(rep, wd, binpath, alphabet, 1, sorted(set(c["policy"] for c, _ in rows)), "%s-deep" % PROP.lower(), trees=[dt])
+    off3 = len(trs)
+    trs = trs + trs3
+    for c, r in rows3:
+        c["ti"] += off3
+    rows = rows + rows3
     kinds = {}
     nontriv = unclaimed = 0
     for c, r in rows:
